@@ -141,35 +141,56 @@ theorem sukfLikelihood_gen_safe (m Ki p rr sub : Nat) (reduced : Bool) (hsub : 0
       have b3 : p / Ki * (i + 1) = p / Ki * i + p / Ki := by rw [Nat.mul_succ]
       simp [this.1, this.2, hi']; omega
 
-def SUKFMem.ok (m : Nat) (mem : SUKFMem) : Prop :=
-  mem.inn = ⟨0, 0⟩ ∨ (mem.inn.r = m ∧ 1 ≤ mem.inn.c ∧ mem.prop.r = m)
-
 theorem sukfSeq_safe (I : Layout) (M : MMod) (sub : Nat) (reduced : Bool) (hs : sukfSupported I) (steps : List CStep) :
-    ∀ mem : SUKFMem, mem.ok M.O.dim → sukfSeqValid I M sub reduced steps → (sukfSeq I M sub reduced mem steps).Safe := by
+    ∀ mem : SUKFMem, sukfSeqValid I M sub reduced steps → (sukfSeq I M sub reduced mem steps).Safe := by
   induction steps with
-  | nil => intro mem _ _; simp [sukfSeq]
+  | nil => intro mem _; simp [sukfSeq]
   | cons s ss ih =>
-    intro mem hm hv
+    intro mem hv
     have hv1 := hv s List.mem_cons_self
     obtain ⟨h1, h2⟩ := sukfStep_ok mem I s.K I s.K (M.withFlags s) sub reduced hv1 hs
     obtain ⟨⟨hK, _, _, _, _, _, _, _, _, _, _⟩, _, hsub, hrr⟩ := hv1
-    have hok : ((sukfStep mem I s.K I s.K (M.withFlags s) sub reduced).val.1).ok M.O.dim := by
-      rcases h2 with h | h | h
-      · rw [h]; exact hm
-      · rw [h]
-        rcases hm with hm | ⟨a, b, _⟩
-        · exact Or.inl hm
-        · exact Or.inr ⟨a, b, rfl⟩
-      · rw [h]; exact Or.inr ⟨rfl, hK, rfl⟩
     simp only [sukfSeq, safe_bind, val_bind, safe_pure, and_true]
-    refine ⟨h1, ?_, ih _ hok (fun x hx => hv x (List.mem_cons_of_mem _ hx))⟩
-    rcases hok with h | ⟨a, b, c⟩
+    refine ⟨h1, ?_, ih _ (fun x hx => hv x (List.mem_cons_of_mem _ hx))⟩
+    rcases h2 with h | h | h
     · rw [h]; simp [sukfLikelihood]
-    · generalize (sukfStep mem I s.K I s.K (M.withFlags s) sub reduced).val.1 = mem' at a b c
-      obtain ⟨⟨ir, ic⟩, ⟨pr, pc⟩⟩ := mem'
-      simp only at a b c
-      subst a c
-      exact sukfLikelihood_gen_safe M.O.dim ic pc M.rr sub reduced (by omega) (by omega) hrr
+    · rw [h]; simp [sukfLikelihood]
+    · rw [h]; exact sukfLikelihood_safe _ (I.dcov * 2 + 1) s.K _ sub reduced (by omega) (by omega) hrr
+
+/-! ### KF call sequences (stale but consistent members), EstimatesExtraction with changing methods -/
+
+theorem kfSeq_safe (I : Layout) (hm hn ysize : Nat) (steps : List CStep) :
+    ∀ mem : KFMem, (mem.inn = ⟨0, 0⟩ ∨ mem.inn = ⟨hm, mem.K⟩) → kfSeqValid I hm hn ysize steps →
+      (kfSeq I hm hn ysize mem steps).Safe := by
+  induction steps with
+  | nil => intro mem _ _; simp [kfSeq]
+  | cons s ss ih =>
+    intro mem hm' hv
+    have hk := kfCorrect_safe I s.K I s.K hm hn ysize s.mv (hv s List.mem_cons_self)
+    obtain ⟨o1, _⟩ := linO hm
+    have hok : ((if s.mv = true then (⟨⟨hm, s.K⟩, s.K⟩ : KFMem) else mem).inn = ⟨0, 0⟩ ∨
+        (if s.mv = true then (⟨⟨hm, s.K⟩, s.K⟩ : KFMem) else mem).inn = ⟨hm, (if s.mv = true then (⟨⟨hm, s.K⟩, s.K⟩ : KFMem) else mem).K⟩) := by
+      split
+      · exact Or.inr rfl
+      · exact hm'
+    simp only [kfSeq, safe_bind, val_bind, safe_pure, and_true, hk, true_and]
+    refine ⟨?_, ih _ hok (fun x hx => hv x (List.mem_cons_of_mem _ hx))⟩
+    rcases hok with h | h
+    · rw [h]; simp [gaussLikelihood]
+    · rw [h]; exact gaussLikelihood_safe _ _ _ _ (by simp [o1]) (by simp)
+
+theorem eeSeq_safe (a : EEArgs) (steps : List (EMethod × Bool)) : ∀ s : EEState, s.inv → eeValid s.ls s.cs true a →
+    (eeSeq s a steps).Safe := by
+  induction steps with
+  | nil => intro s _ _; simp [eeSeq]
+  | cons st rest ih =>
+    intro s hi hv
+    obtain ⟨m, full⟩ := st
+    have hvf : eeValid s.ls s.cs full a := ⟨hv.1, hv.2.1, hv.2.2.1, fun _ => hv.2.2.2 rfl⟩
+    have h := eeExtract_ok s m full a hi hvf
+    simp only [eeSeq, safe_bind, safe_pure, and_true]
+    refine ⟨h.1, ih _ h.2.1 ?_⟩
+    rw [h.2.2.1, h.2.2.2]; exact hv
 
 /-! ### ParticleSet::resize -/
 
